@@ -65,6 +65,7 @@ static void fn_case(const c18_fn_t *f, long idx, c18_case_t *c) {
 	if (idx >= 512) { idx -= 512; c->plen = f->payload_max < 3 ? f->payload_max : 3; c->fillbyte = (uint8_t) (idx % 256); c->content = 1 + (int) (idx / 256); return; }
 	c->plen = (int) (idx / 2); c->fillbyte = (idx & 1) ? 0xFE : 0x41;
 }
+static long held_cases(const c18_fn_t *f) { return 1 + (f->payload_max >= 0 ? 256 : 0); }
 typedef struct { int32_t fn; int32_t node; int32_t start, count; } c18_job_t;
 
 static void c18_child(const void *job, size_t n) {
@@ -74,11 +75,18 @@ static void c18_child(const void *job, size_t n) {
 	hx_child_begin(NULL, 0, 0, NULL, 0, 1000000ull * 3000000ull);
 	if (hx_start_debug(0)) res_infra("start failed");
 	hx_quiesce();
+	/* held mode (job node 4..7 = depth 0..3): the destination's response budget is exhausted when the call is made (ten unanswered
+	 * pings, the tenth already held), so the message under test waits in the queue of held messages and reaches the wire only when
+	 * the answers arrive — FIFO behind the held ping, with exactly the specified bytes.  Cases: the default arguments and every
+	 * payload length 0..255 */
+	int held = j.node >= 4; j.node &= 3;
 	t_bidib_node_address node = NODES[j.node];
 	uint8_t dest[4] = {node.top, node.sub, node.subsub, 0}; if (!f->takes_node) memset(dest, 0, 4);
+	t_bidib_node_address destnode = {dest[0], dest[1], dest[2]};
 	size_t woff = 0; int seq = 0; hx_hash_t h; hx_hash_init(&h); long accepted = 0, rejected = 0;
-	for (long c = j.start; c < (long) j.start + j.count && c < fn_cases(f); c++) {
-		res_progress(c);
+	for (long c0 = j.start; c0 < (long) j.start + j.count && c0 < (held ? held_cases(f) : fn_cases(f)); c0++) {
+		res_progress(c0);
+		long c = held ? (c0 == 0 ? 0 : fn_cases(f) - 1024 + 2 * (c0 - 1)) : c0;
 		c18_case_t cs; fn_case(f, c, &cs);
 		uint8_t *payload = malloc((size_t) cs.plen + 1);     /* exact-size heap buffer (plus 0 bytes): over-reads are visible to ASan */
 		payload = realloc(payload, cs.plen ? (size_t) cs.plen : 1);
@@ -94,16 +102,26 @@ static void c18_child(const void *job, size_t n) {
 		}
 		vs_sleep_us(2500000);                                 /* earlier requests expire: every call meets an empty budget */
 		{ static char ctx[300]; size_t co = (size_t) snprintf(ctx, sizeof ctx, "%s(node depth %d; args", f->name, j.node); for (int i = 0; i < f->nargs; i++) co += (size_t) snprintf(ctx + co, sizeof ctx - co, " %02x", cs.a[i]); snprintf(ctx + co, sizeof ctx - co, "; payload %d bytes%s)", f->payload_max >= 0 ? cs.plen : -1, cs.content ? (cs.plen ? hx_hex(payload, (size_t) cs.plen) : "") : ""); hx_set_context(ctx); }
+		if (held) { for (int i = 0; i < 10; i++) bidib_send_sys_ping(destnode, (uint8_t) i, 0); bidib_flush(); woff = env_out_len(); }
 		f->call(node, cs.a, cs.plen, payload);
 		bidib_flush();
-		char what[256]; size_t wo = (size_t) snprintf(what, sizeof what, "%s(node depth %d; args", f->name, j.node);
+		if (held) { uint8_t ht[8]; if (vx_node_deferred(dest, ht, 8) >= 2) res_printf("C c18_held_observed 1\n"); }
+		if (held) { for (int i = 0; i < 10; i++) { uint8_t pd = (uint8_t) i; hx_feed_msg(dest, 0, MSG_SYS_PONG, &pd, 1); } hx_quiesce(); bidib_flush(); uint8_t *um; while ((um = bidib_read_message())) free(um); }
+		char what[256]; size_t wo = (size_t) snprintf(what, sizeof what, "%s%s(node depth %d; args", held ? "[held behind an exhausted budget] " : "", f->name, j.node);
 		for (int i = 0; i < f->nargs; i++) wo += (size_t) snprintf(what + wo, sizeof what - wo, " %02x", cs.a[i]);
 		snprintf(what + wo, sizeof what - wo, "; payload %d bytes%s%s)", f->payload_max >= 0 ? cs.plen : -1, cs.content ? " = " : "", cs.content && cs.plen ? hx_hex(payload, (size_t) cs.plen) : "");
 		int bad = hx_emit_san_events(what);
 		static rc_pkt_t pk[4]; char err[160];
 		size_t len = env_out_len() - woff; const uint8_t *w = env_out() + woff; woff = env_out_len();
 		uint8_t dt[4]; int deferred = vx_node_deferred(dest, dt, 4);
-		if (deferred) { res_violation("unexpected-deferral", "%s: message was held back although the budget is empty", what); bad = 1; }
+		/* flat list of the messages written; held mode: the tenth ping comes first (FIFO) and is taken off */
+		static rc_msg_t *ml[16]; int nmsg = 0; int np = len ? rc_decode_strict(w, len, pk, 4, err, sizeof err) : 0;
+		for (int i = 0; i < np; i++) for (int k = 0; k < pk[i].nmsgs && nmsg < 16; k++) ml[nmsg++] = &pk[i].msgs[k];
+		if (held && np >= 0) {
+			if (nmsg == 0 || ml[0]->type != MSG_SYS_PING || ml[0]->dlen != 1 || ml[0]->data[0] != 9 || memcmp(ml[0]->addr, dest, 4)) { res_violation("held-order: the message held first did not reach the wire first after the answers arrived", "%s: wire=%s", what, hx_hex(w, len > 60 ? 60 : len)); bad = 1; }
+			else { nmsg--; memmove(ml, ml + 1, sizeof ml[0] * (size_t) nmsg); if (nmsg == 0) len = 0; }
+		}
+		if (deferred) { res_violation(held ? "held-message-stranded: the budget is free again but the message is still held" : "unexpected-deferral", "%s: message was held back although the budget is empty", what); bad = 1; }
 		else if (unspecified && len == 0 && vx_send_buffer_index() == 0) { rejected++; res_printf("C c18_unspecified_rejected 1\n"); }
 		else if (rlen < 0) {
 			rejected++;
@@ -111,13 +129,12 @@ static void c18_child(const void *job, size_t n) {
 				res_violation(cls, "%s: wire=%s", what, hx_hex(w, len > 80 ? 80 : len)); bad = 1; }
 		} else {
 			accepted++;
-			int np = len ? rc_decode_strict(w, len, pk, 4, err, sizeof err) : 0;
-			int nm = 0; for (int i = 0; i < np; i++) nm += pk[i].nmsgs;
+			int nm = nmsg;
 			if (np < 0) { res_violation("wire-malformed", "%s: %s", what, err); bad = 1; }
 			else if (nm == 0) { char cls[160]; snprintf(cls, sizeof cls, "rejected-in-range fn=%s: documented-valid parameters were not submitted", f->name); res_violation(cls, "%s", what); bad = 1; }
 			else if (nm != 1) { char cls[160]; snprintf(cls, sizeof cls, "not-exactly-one-message fn=%s", f->name); res_violation(cls, "%s: %d messages", what, nm); bad = 1; }
 			else {
-				rc_msg_t *m = &pk[0].msgs[0]; seq = seq % 255 + 1;
+				rc_msg_t *m = ml[0]; seq = seq % 255 + 1;
 				if (m->raw[0] > 127) { char cls[160]; snprintf(cls, sizeof cls, "length-byte-exceeds-127 fn=%s", f->name); res_violation(cls, "%s: length byte %d", what, m->raw[0]); bad = 1; }
 				if (m->type != rtype || m->type >= 0x80 || memcmp(m->addr, dest, 4) || m->dlen != rlen || memcmp(m->data, rdata, (size_t) rlen)) {
 					char cls[200]; snprintf(cls, sizeof cls, "wrong-encoding fn=%s wire-data-bytes=%d specified=%d: type/destination/data differ from the specified encoding", f->name, m->dlen, rlen);
@@ -140,7 +157,7 @@ static void add_job(int fn, int node, long start, long count) {
 }
 static size_t c18_gen(long idx, uint8_t *payload, char *human, size_t hn) {
 	c18_job_t *j = &jobs[round_base + idx]; memcpy(payload, j, sizeof *j);
-	snprintf(human, hn, "%s%s node-depth=%d cases %d..%d", j->count == 1 ? "single case " : "", c18_fns[j->fn].name, j->node, j->start, j->start + j->count - 1);
+	snprintf(human, hn, "%s%s%s node-depth=%d cases %d..%d", j->count == 1 ? "single case " : "", j->node >= 4 ? "[held] " : "", c18_fns[j->fn].name, j->node & 3, j->start, j->start + j->count - 1);
 	return sizeof *j;
 }
 static long resume[4096][2]; static int nresume;
@@ -202,6 +219,13 @@ int c18_run(const char *tier) {
 		for (long s = 0; s < fn_cases(&c18_fns[f]); s += C18_BATCH) add_job(f, node, s, C18_BATCH);
 		total += fn_cases(&c18_fns[f]);
 	}
+	/* held mode: default arguments + every payload length, at every node depth (resets excluded: they clear the node table) */
+	long held_total = 0;
+	for (int f = 0; f < NFN; f++) for (int node = 0; node < 4; node++) {
+		if (!c18_fns[f].takes_node && node) continue;
+		if (strstr(c18_fns[f].name, "sys_reset")) continue;
+		add_job(f, 4 + node, 0, held_cases(&c18_fns[f])); held_total += held_cases(&c18_fns[f]);
+	}
 	long execs = 0, states = 0; int exhaustive = 1; round_base = 0;
 	for (int round = 0; round < 100 && round_base < njobs; round++) {
 		nresume = 0; long nround = njobs - round_base;
@@ -223,6 +247,6 @@ int c18_run(const char *tier) {
 	long calls = rep_get("c18_accepted") + rep_get("c18_rejected");
 	rep_count("executions", execs); rep_count("states", states ? states : 1); rep_count("transitions", calls); rep_count("distinct_nontrivial", calls);
 	rep_flag("exhaustive", exhaustive);
-	rep_note("functions in catalogue=%d, calls executed=%ld (accepted %ld, rejected %ld), planned=%ld", NFN, calls, rep_get("c18_accepted"), rep_get("c18_rejected"), total);
+	rep_note("functions in catalogue=%d, calls executed=%ld (accepted %ld, rejected %ld), planned=%ld direct + %ld with an exhausted budget (message under test observed in the held queue: %ld)", NFN, calls, rep_get("c18_accepted"), rep_get("c18_rejected"), total, held_total, rep_get("c18_held_observed"));
 	return 0;
 }
